@@ -12,7 +12,7 @@ import warnings
 from dataclasses import dataclass
 from typing import Any, Callable, Dict, Iterator, List, Optional
 
-from core import Case, Prop, SelfCheckFailure, exc_category, DOCUMENTED
+from core import Case, InfraError, Prop, SelfCheckFailure, exc_category, DOCUMENTED
 from gen import hx, unhx, rbytes
 
 import props.c06_fixed as c6f
@@ -358,8 +358,48 @@ def op_fac_holder(a):
 _REFUSED = object()
 
 
+def _documented_only(ins: Dict[str, Any], what: str):
+    for name, r in ins.items():
+        if "err" in r and r["err"] != "documented":
+            raise SelfCheckFailure(f"{name} raised an undocumented {r['err']} error on {what}")
+
+
+def _in_domain(a) -> bool:
+    """is this op line one the generator can produce? (the framework's shrinker lowers values blindly; for an op
+    whose model side is constant nothing else would stop it from leaving the statement's domain)"""
+    try:
+        k = KINDS[a["kind"]]
+        if k.lean:
+            return False
+        if a["src_w"] not in WIDTHS or a["dst_w"] != a["src_w"] or a["seq_w"] not in WIDTHS:
+            return False
+        for f, w in (("src_v", "src_w"), ("dst_v", "dst_w"), ("seq_v", "seq_w")):
+            if not 0 <= a[f] < 1 << (8 * a[w]):
+                return False
+        if any(a[f] not in (0, 1) for f in ("mode", "large", "crc", "dir", "segctrl")):
+            return False
+        top = (1 << 64) if a["large"] else (1 << 32)
+        if not 0 <= a.get("size", 0) < top:
+            return False
+        if "fault" in a and a["fault"] is not None and len(a["fault"]) // 2 not in WIDTHS:
+            return False
+        if "cond" in a and a["cond"] not in c6f.COND_MEMBERS:
+            return False
+        if k.name == "eof":
+            return len(a["checksum"]) == 8 and (a["cond"] != 0 or a["fault"] is None)
+        if k.name == "finished":
+            return a["dc"] in (0, 1) and a["fs"] in (0, 1, 2, 3) and (a["cond"] not in (0, 11) or a["fault"] is None)
+        if k.name == "metadata":
+            return a["ctype"] in (0, 1, 2, 3, 15) and isinstance(a["closure"], bool)
+        return False
+    except (KeyError, TypeError, IndexError):
+        return False
+
+
 def op_fac_impl_only(a):
     """kinds without a Lean model (stage 1): the statement's clauses on the real code alone"""
+    if not _in_domain(a):
+        raise InfraError(f"fac_impl_only outside the generator's domain: {str(a)[:200]}")
     k = KINDS[a["kind"]]
     sfx = unhx(a["suffix"])
     obj, raw, dec = _roundtrip(k, a, sfx)
@@ -372,7 +412,7 @@ def op_fac_impl_only(a):
     hl = 4 + 2 * a["src_w"] + a["seq_w"]
     if a.get("deep"):
         for cut in range(len(raw)):
-            _inspect(raw[:cut])
+            _documented_only(_inspect(raw[:cut]), f"a {k.name} PDU truncated to {cut} octets")
             try:
                 PduFactory.from_raw(raw[:cut])
             except Exception as e:  # noqa
@@ -622,7 +662,7 @@ class C12(Prop):
             # keep the run time bounded: very long PDUs (max-size NAK / File Data) only a few times
             small = [a for a in got if len(str(a)) < 4000]
             big = [a for a in got if len(str(a)) >= 4000]
-            n = 3000 if thorough else 350
+            n = 3000 if thorough else 300
             pick = small if len(small) <= n else rng.sample(small, n)
             pick += big[: (8 if thorough else 2)]
             for i, a in enumerate(pick):
@@ -648,7 +688,7 @@ class C12(Prop):
                             yield from_raw_case(raw, b"", "any", "header-only")
 
         # --- random octet strings with a bias towards plausible headers and directive octets ---
-        for _ in range(200000 if thorough else 6000):
+        for _ in range(200000 if thorough else 4000):
             ln = rng.choice([0, 1, 2, 3, 4, 6, 7, 8, 9, 10, 11, 12, 15, 16, 24, rng.randint(0, 60)])
             b = bytearray(rbytes(rng, ln))
             if ln > 0 and rng.random() < 0.9:
